@@ -29,7 +29,10 @@ CLAIM = {
             "to MAX - 1 before pushing the old tip, or to MAX after), so that a reorg of any depth inside the window can "
             "be disconnected; (R14.11) the payment preimages the monitors consult when they decode a commitment "
             "(which received HTLC outputs are ours to claim) survive a restart: after NodeState::restore rebuilt them, "
-            "restore_node overwrites payment entries only for the keys of the outgoing-invoice table. Does not decide "
+            "restore_node overwrites payment entries only for the keys of the outgoing-invoice table; (R14.12) streamed "
+            "delivery, both directions: the block hash a streamed (externally delivered) block is matched against, and the hash "
+            "the listeners are told, is the hash of the block being processed - the new header in add_block, the current tip "
+            "in remove_block (the validated header `validate_block` is given in that position). Does not decide "
             "equality with a fresh replay over all block histories nor general panic-freedom.",
     "note": "rustc MIR; symmetry is compared per match arm over field writes, mutator calls and Vec::push sites "
             "including closures called from the arm",
@@ -61,6 +64,7 @@ def run(ctx):
     r149(ctx)
     r1410(ctx)
     r1411(ctx)
+    r1412(ctx)
 
 
 def arms(ctx, body, variants):
@@ -633,3 +637,36 @@ def r1411(ctx):
                        f"NodeState::restore builds payments from `{e[:120]}`, not from the stored preimages", where=f"{rb.file}:{st.line}",
                        sample="payments <- preimages")
     ctx.floor("R14.11", "NodeState literal in NodeState::restore with a payments field", 1 if found else 0, 1)
+
+
+def r1412(ctx):
+    ctx.rule("R14.12", "add/remove agreement on *which block* a request is about: the expected hash given to "
+                       "maybe_finish_decoding_block (streamed block), the hash notify_listeners_* reports and the header "
+                       "validate_block validates are one block - the new header when adding, the current tip when removing")
+    from engine import rulelib as R
+    from engine.cfg import render, peel
+    p = ctx.prog
+    for fn, subject, what in (("add_block", "header", "the new block's header (parameter `header`)"),
+                              ("remove_block", "self.tip", "the current tip (`self.tip`), i.e. the block that is disconnected")):
+        bl = [x for x in p.bodies.values() if x.name.endswith(f"chain::tracker::ChainTracker::<L>::{fn}")]
+        ctx.floor("R14.12", f"ChainTracker::{fn}", len(bl), 1)
+        b = bl[0]
+        fv = fnview(ctx, b, policy=False)
+        # the header that validate_block validates (5th argument: `headers`)
+        vb = R.call_blocks(fv, lambda n: n.endswith("ChainTracker::<L>::validate_block"))
+        ctx.floor("R14.12", f"validate_block call in {fn}", len(vb), 1)
+        for bi, ln, c in vb:
+            val = render(peel(fv.expr(c.args[4])))
+            ctx.ob("R14.12", subject in val, f"{fn}/validated-header", f"{fn} validates `{val[:80]}` (expected {what})",
+                   where=f"{b.file}:{ln}", sample=val[:60])
+        sites = R.call_blocks(fv, lambda n: n.endswith("::maybe_finish_decoding_block") or "::notify_listeners_" in n)
+        ctx.floor("R14.12", f"decode / notify calls in {fn}", len(sites), 2)
+        for bi, ln, c in sites:
+            h = render(peel(fv.expr(c.args[-1])))
+            nm = c.callee.name.rsplit("::", 1)[-1]
+            ok = "block_hash(" in h and (subject + ")" in h or subject + ".0)" in h)
+            ctx.ob("R14.12", ok, f"{fn}/{nm}/block-hash",
+                   f"{fn} hands `{h[:90]}` to {nm} as the hash of the block it processes; the block it validates and "
+                   f"{'connects' if fn == 'add_block' else 'disconnects'} is {what}: a streamed block (delivered under its own "
+                   "hash) is refused with BlockDecodeError, and the request handler treats a refused removal as fatal",
+                   where=f"{b.file}:{ln}", sample=h[:70])
